@@ -60,3 +60,37 @@ Print Assumptions C05_renumber_terminates.
 Theorem C05_renumber_never_panics : forall cfg a, renumber_aig cfg a <> RnPanic.
 Proof. exact renumber_never_panics. Qed.
 Print Assumptions C05_renumber_never_panics.
+
+(* ------------------------------------------------------------------ *)
+(* The DIMACS family and solver logs, end to end (CnfSafe.v): for every byte string (below 2^62 bytes) and every
+   terminal event of the source, EVERY admissible run of the whole parser programs ends with a value: it is never
+   stuck (no Advance beyond what the program has established to be buffered — the "advance only within scanned
+   offsets" obligation), never panics (the unchecked column subtraction never underflows; no other Crash is reachable),
+   and no loop runs out of fuel (every continuing iteration consumes at least one byte).  By the simulation theorem
+   (Props/C01.v) this covers every concrete run under every schedule and chunk size. *)
+From Flussab Require Import Simulation Cnf CnfProofs Hoare CnfSafe.
+
+Theorem C05_dimacs_terminates_with_a_value : forall fuel k maxd ignore_header S fail r,
+  Forall (fun b => b < 256) S -> nlen S < 2 ^ 62 -> (length S < fuel)%nat ->
+  aruns (parse_dimacs fuel k maxd ignore_header lrs_init) (view_init S fail) r ->
+  exists out lr' v', r = ADone (out, lr') v'.
+Proof. exact parse_dimacs_safe. Qed.
+Print Assumptions C05_dimacs_terminates_with_a_value.
+
+Theorem C05_log_terminates_with_a_value : forall fuel maxd ignore_unknown S fail r,
+  Forall (fun b => b < 256) S -> nlen S < 2 ^ 62 -> (length S < fuel)%nat ->
+  aruns (parse_log fuel maxd ignore_unknown lrs_init) (view_init S fail) r ->
+  exists out lr' v', r = ADone (out, lr') v'.
+Proof. exact parse_log_safe. Qed.
+Print Assumptions C05_log_terminates_with_a_value.
+
+(* ... and the concrete runs: CDone for every honest source, schedule and chunk size *)
+Theorem C05_dimacs_concrete_runs_finish : forall fuel k maxd ignore_header (sr : source) (c : N),
+  NoLie (events sr) -> 1 <= c ->
+  Forall (fun b => b < 256) (fst (stream_of sr)) -> nlen (fst (stream_of sr)) < 2 ^ 62 ->
+  (length (fst (stream_of sr)) < fuel)%nat ->
+  let p := parse_dimacs fuel k maxd ignore_header lrs_init in
+  exists a v' s', srun p (view_init (fst (stream_of sr)) (snd (stream_of sr))) = ADone a v' /\
+                  crun p (set_chunk (reader_init sr) c) = CDone a s'.
+Proof. exact parse_dimacs_any_chunking. Qed.
+Print Assumptions C05_dimacs_concrete_runs_finish.
